@@ -40,7 +40,7 @@ def corpus():
 
 
 def gen_cases(rng, tier):
-    n = 12 if tier == "quick" else 50
+    n = 4 if tier == "quick" else 50
     out = []
     for j in range(n):
         ops, slots, folders, k = [], [], ["0"], 0
@@ -65,9 +65,9 @@ def gen_cases(rng, tier):
                 f = rng.choice(folders[1:]); ops.append("fk:%s" % f); folders.remove(f)
         out.append("c17 g%d mode=hist cbe=%s ops=%s" % (j, "db" if j % 3 == 1 else "fs", "|".join(ops)))
         # the same history on device 0 of a two-device network account, device 1 syncing now and then
-        if j < (2 if tier == "quick" else 12):
+        if j < (1 if tier == "quick" else 12):
             nops = []
-            for o in ops:
+            for o in (ops[:7] if tier == "quick" else ops):
                 nops.append(o)
                 if rng.random() < 0.4: nops.append("s1")
             out.append("c17 n%d mode=net ops=%s" % (j, "|".join(nops + ["s1"])))
